@@ -60,6 +60,12 @@ func (s *state) Persistent() types.PersistentState {
 func (s *state) getLog(index uint64) (*types.PooledBuffer, error) {
 	// Check the tail writer first
 	if s.tail != nil {
+		// The tail writer doesn't know about head truncations that happened
+		// since it was created or recovered, so enforce the logical start of the
+		// log here.
+		if index < s.firstIndex() {
+			return nil, ErrNotFound
+		}
 		raw, err := s.tail.GetLog(index)
 		if err != nil && err != ErrNotFound {
 			// Return actual errors since they might mask the fact that index really
